@@ -2,7 +2,7 @@
     and followed by [Print Assumptions]. *)
 From Coq Require Import List ZArith NArith Bool Permutation Sorted.
 From Kardia Require Import Base.Int64 C12.Model C12.Spec C12.ProofsSort C12.ProofsUpdate C12.ProofsSpec
-     C12.ProofsFair C12.ProofsRefine C12.ProofsUpdate2 C12.ProofsUpdate3 C12.ProofsUpdate4 C12.ProofsUpdate5 C12.ProofsReport C12.ProofsChain C12.ProofsExamples C12.Open Generated.C12Facts.
+     C12.ProofsFair C12.ProofsRefine C12.ProofsUpdate2 C12.ProofsUpdate3 C12.ProofsUpdate4 C12.ProofsUpdate5 C12.ProofsReport C12.ProofsAnyTimes C12.ProofsChain C12.ProofsExamples C12.Open Generated.C12Facts.
 Import ListNotations.
 Local Open Scope Z_scope.
 
@@ -341,10 +341,12 @@ Theorem C12_report_keeps_unknown_removal :
 Proof. exact calculate_updates_keeps_unknown_removal. Qed.
 Print Assumptions C12_report_keeps_unknown_removal.
 
-(** an accepted report refines the specification: the new NextValidators is the specified
-    update by the derived change set (or the set itself when nothing changed) followed by one
-    round of the specified round-robin, whose proposer is the one recorded *)
+(** the cstate path never panics on a good set, and an accepted report refines the
+    specification: the new NextValidators is the specified update by the derived change set (or
+    the set itself when nothing changed) followed by one round of the specified round-robin,
+    whose proposer is the one recorded *)
 Theorem C12_report_refines_spec :
+  (forall s report, good s -> apply_report s report <> None) /\
   forall s report s',
     good s -> apply_report s report = Some (s', UOk) ->
     let cs := calculate_updates (vs_vals s) report in
@@ -352,13 +354,8 @@ Theorem C12_report_refines_spec :
       ((cs = [] /\ mid = vs_vals s) \/ (cs <> [] /\ spec_update max_total_voting_power (vs_vals s) cs mid)) /\
       spec_increment mid 1 (vs_vals s') props /\
       vs_proposer s' = Some (last props 0%N, p).
-Proof. exact report_refines_spec. Qed.
+Proof. exact (conj report_no_panic report_refines_spec). Qed.
 Print Assumptions C12_report_refines_spec.
-
-Theorem C12_report_never_panics :
-  forall s report, good s -> apply_report s report <> None.
-Proof. exact report_no_panic. Qed.
-Print Assumptions C12_report_never_panics.
 
 (** updateState on the whole LatestBlockState is all-or-nothing: an error returns the state
     that was passed in (all three validator sets, both heights) *)
@@ -392,29 +389,17 @@ Theorem C12_block_pipeline_lag :
 Proof. exact pipeline_lag. Qed.
 Print Assumptions C12_block_pipeline_lag.
 
-(** histories of blocks: from the genesis arrangement over a good set (or any good state), any
-    sequence of validator reports, valid or not, runs without panic — hence without any int64
-    wrap or clip — and every state on the way has good Validators and NextValidators *)
-Theorem C12_genesis_good :
-  forall s c, good s -> chain_genesis s = Some c -> chain_good c.
-Proof. exact genesis_good. Qed.
-Print Assumptions C12_genesis_good.
-
-Theorem C12_genesis_never_panics :
-  forall s, good s -> chain_genesis s <> None.
-Proof. exact genesis_no_panic. Qed.
-Print Assumptions C12_genesis_never_panics.
-
-Theorem C12_block_keeps_good :
-  forall st report,
-    chain_good st -> exists st' e, apply_block st report = Some (st', e) /\ chain_good st'.
-Proof. exact block_good. Qed.
-Print Assumptions C12_block_keeps_good.
-
+(** histories of blocks: the genesis arrangement over a good set exists and is a good state;
+    from a good state a block, and hence any sequence of validator reports, valid or not, runs
+    without panic — so without any int64 wrap or clip — and every state on the way has good
+    Validators and NextValidators *)
 Theorem C12_block_histories_good :
-  forall st reports,
-    chain_good st -> exists st', run_blocks st reports = Some st' /\ chain_good st'.
-Proof. exact blocks_good. Qed.
+  (forall s, good s -> exists c, chain_genesis s = Some c /\ chain_good c) /\
+  (forall st report,
+    chain_good st -> exists st' e, apply_block st report = Some (st', e) /\ chain_good st') /\
+  (forall st reports,
+    chain_good st -> exists st', run_blocks st reports = Some st' /\ chain_good st').
+Proof. exact (conj genesis_exists_good (conj block_good blocks_good)). Qed.
 Print Assumptions C12_block_histories_good.
 
 (** the proposer of round k of a height, CopyIncrementProposerPriority(k).GetProposer() on the
@@ -429,3 +414,23 @@ Theorem C12_round_proposer_refines_spec :
       In (last props 0%N) (map v_addr (vs_vals s)).
 Proof. exact proposer_at_refines_spec. Qed.
 Print Assumptions C12_round_proposer_refines_spec.
+
+(** IncrementProposerPriority(times) for ANY number of rounds (partial answer to
+    Open.C12_no_overflow_any_times_statement: the side condition no longer mentions [times], it
+    bounds the number of validators times the total power, n + (2n + 1) T <= 3 * 2^60, e.g. 100
+    validators with a total up to 2^53): no panic, no int64 wrap or clip, exactly the specified
+    round-robin, and the priorities stay within n + 2nT however many rounds are run.
+    Missing for the full statement: a bound on the priorities that does not grow with n. *)
+Theorem C12_increment_any_times_partial :
+  forall s (times : positive),
+    wf_set s -> bounded B0 (vs_vals s) ->
+    round_bound (vs_vals s) + total_power (vs_vals s) <= B0 ->
+    exists s' props a p,
+      increment s (Z.pos times) = Some s' /\
+      spec_increment (vs_vals s) (Pos.to_nat times) (vs_vals s') props /\
+      last props 0%N = a /\ vs_proposer s' = Some (a, p) /\
+      (exists m0, In m0 (vs_vals s') /\ v_addr m0 = a /\ v_power m0 = p) /\
+      wf_set s' /\ vs_total s' = vs_total s /\
+      bounded (round_bound (vs_vals s)) (vs_vals s') /\ bounded B0 (vs_vals s').
+Proof. exact increment_refines_any_times. Qed.
+Print Assumptions C12_increment_any_times_partial.
